@@ -393,6 +393,50 @@ pub async fn exec(app: &Arc<AppShareData>, op: &Value) -> Value {
                     Err(_) => Ok(json!({"res":"timeout"})),
                 }
             }
+            "cfg_http_set" | "cfg_http_del" => {
+                // the write enters through the REAL HTTP handler of this node (/nacos/v1/cs/configs of the main application,
+                // in-process service): parameter parsing, ConfigRoute, the answer the client gets
+                use actix_web::{test, web, App};
+                let ms = op["timeout_ms"].as_u64().unwrap_or(8000);
+                let conf = std::ops::Deref::deref(&app.sys_config).clone();
+                let svc = test::init_service(App::new().app_data(web::Data::new(app.clone())).app_data(web::Data::new(app.config_addr.clone())).app_data(web::Data::new(app.naming_addr.clone())).app_data(web::Data::new(app.bi_stream_manage.clone())).configure(rnacos::web_config::app_config(conf))).await;
+                let d = op["data_id"].as_str().unwrap_or("");
+                let g = op["group"].as_str().unwrap_or("g");
+                let req = if name == "cfg_http_set" {
+                    test::TestRequest::post().uri("/nacos/v1/cs/configs").insert_header(("Content-Type", "application/x-www-form-urlencoded")).set_payload(format!("dataId={}&group={}&content={}", d, g, op["value"].as_str().unwrap_or("")))
+                } else {
+                    test::TestRequest::delete().uri(&format!("/nacos/v1/cs/configs?dataId={}&group={}", d, g))
+                };
+                match tokio::time::timeout(std::time::Duration::from_millis(ms), crate::front::http(&svc, req.to_request())).await {
+                    Ok(a) if a.status == 200 && a.body == b"true" => Ok(json!({"res":"ok"})),
+                    Ok(a) => Ok(json!({"res":"error","err":format!("{} {}", a.status, String::from_utf8_lossy(&a.body))})),
+                    Err(_) => Ok(json!({"res":"timeout"})),
+                }
+            }
+            "cfg_grpc_set" | "cfg_grpc_del" => {
+                // the write enters through the REAL gRPC service of this node (a fresh SDK-like connection to its own port)
+                let ms = op["timeout_ms"].as_u64().unwrap_or(8000);
+                let port = app.sys_config.grpc_port;
+                let d = op["data_id"].as_str().unwrap_or("").to_string();
+                let g = op["group"].as_str().unwrap_or("g").to_string();
+                let v = op["value"].as_str().unwrap_or("").to_string();
+                let set = name == "cfg_grpc_set";
+                let fut = async move {
+                    let mut conn = crate::front::connect(port, "").await?;
+                    if set {
+                        crate::front::grpc_call(&mut conn, "ConfigPublishRequest", json!({"dataId":d,"group":g,"tenant":"","content":v})).await
+                    } else {
+                        crate::front::grpc_call(&mut conn, "ConfigRemoveRequest", json!({"dataId":d,"group":g,"tenant":""})).await
+                    }
+                };
+                match tokio::time::timeout(std::time::Duration::from_millis(ms), fut).await {
+                    Ok(Ok((rt, body))) if (rt == "ConfigPublishResponse" || rt == "ConfigRemoveResponse") && body["resultCode"].as_u64() == Some(200) => Ok(json!({"res":"ok"})),
+                    Ok(Ok((rt, body))) if rt == "timeout" => Ok(json!({"res":"timeout","err":body.to_string()})),
+                    Ok(Ok((rt, body))) => Ok(json!({"res":"error","err":format!("{} {}", rt, body)})),
+                    Ok(Err(e)) => Ok(json!({"res":"error","err":e.to_string()})),
+                    Err(_) => Ok(json!({"res":"timeout"})),
+                }
+            }
             "ns_http_register" | "ns_http_deregister" => {
                 // what the HTTP instance handlers do: NamingRoute (the owner node of the service applies, the others sync)
                 use rnacos::naming::model::{Instance, InstanceUpdateTag};
